@@ -112,7 +112,6 @@ End P2WSHMS.
 
 Section Commit.
   Variable cr : crypto.
-  Hypothesis Hrip : forall x, length (h_ripemd160 cr x) = 20%nat.
   Hypothesis Hsha : forall x, length (h_sha3 cr x) = 32%nat.
 
   (* [signed pk msg sg]: the owner of pk produced sg as a signature of msg *)
@@ -120,7 +119,7 @@ Section Commit.
   Hypothesis sig_unforgeable : forall pk msg sg, sig_verify cr pk msg sg = true -> signed pk msg sg.
 
   (* ----- P2WPKH ----- *)
-  Theorem p2pkh_commitment pk0 sh0 sg0 :
+  Theorem p2pkh_commitment (Hrip : forall x, length (h_ripemd160 cr x) = 20%nat) pk0 sh0 sg0 :
     (forall msg sg, signed pk0 msg sg -> msg = sh0 /\ sg = sg0) ->
     forall cx sh' other f sd args' gas,
       cx_vmversion cx = 1%N -> cx_code cx = convert_program other (p2w_program (h_ripemd160 cr pk0)) ->
@@ -157,7 +156,7 @@ Section Commit.
       (sh' = sh0 /\ exists extra sigs ks, args' = extra ++ sigs ++ [MS] /\ length sigs = m /\ subseq ks pks /\
                       Forall2 (fun sg pk => signed pk sh0 sg) sigs ks)
       \/ collision (h_sha3 cr).
-  Proof using Hsha sig_unforgeable Hpks Hm1 Hmn HMS.
+  Proof.
     intros Honly cx sh' other f sd args' gas Hvm Hcode Hsh Hshl Hg Hacc.
     apply (p2wsh_multisig_iff cr Hsha pks m Hpks Hm1 Hmn HMS cx sh' other f sd args' gas Hvm Hcode Hsh Hshl Hg) in Hacc.
     destruct Hacc as [[extra [sigs [Ea [Hl [ks [Hss Hf]]]]]] | [rest [script [Hne [Hh _]]]]].
